@@ -273,6 +273,49 @@ async fn run(name: &str) -> Result<(), String> {
             let _ = std::fs::remove_dir_all(&dir);
             Ok(())
         }
+        // C01 (BOUNDED: one history per watcher kind, real file system): create / write / nested create / rename / remove under a watched directory
+        // each reach the action handler (an event naming the path), under the native and the poll watcher
+        "fs_operations_reach_handler" => {
+            use std::sync::Mutex;
+            for (label, kind) in [("native", Watcher::Native), ("poll", Watcher::Poll(Duration::from_millis(100)))] {
+                let d = dir.join(label); std::fs::create_dir_all(&d).unwrap();
+                let seen: Arc<Mutex<Vec<std::path::PathBuf>>> = Arc::new(Mutex::new(vec![]));
+                let empty_batches = Arc::new(AtomicUsize::new(0));
+                let (s2, e2) = (seen.clone(), empty_batches.clone());
+                let wx = Watchexec::new(move |action| {
+                    if action.events.is_empty() { e2.fetch_add(1, Ordering::SeqCst); }
+                    let mut g = s2.lock().unwrap(); for (p, _) in action.paths() { g.push(p.to_owned()); } drop(g); action }).map_err(|e| e.to_string())?;
+                wx.config.throttle(Duration::from_millis(30));
+                wx.config.file_watcher(kind);
+                wx.config.pathset([d.clone()]);
+                let main = wx.main();
+                tokio::time::sleep(Duration::from_millis(600)).await;
+                let wait_for = |name: &'static str| { let seen = seen.clone(); async move {
+                    for _ in 0..200 { if seen.lock().unwrap().iter().any(|p| p.file_name().map_or(false, |f| f == name)) { return true; } tokio::time::sleep(Duration::from_millis(50)).await; } false } };
+                let mut missing: Vec<String> = vec![];
+                std::fs::write(d.join("created.txt"), "1").unwrap();
+                if !wait_for("created.txt").await { main.abort(); return Err(format!("[{label}] harness or defect: the creation of a file under the watched directory never reached the action handler within 10 s")); }
+                // (notify's poll watcher compares modification times in whole seconds: let the second change)
+                tokio::time::sleep(Duration::from_millis(1200)).await;
+                seen.lock().unwrap().clear();
+                std::fs::write(d.join("created.txt"), "22").unwrap();
+                if !wait_for("created.txt").await { missing.push("a write to an existing file".into()); }
+                std::fs::create_dir_all(d.join("nested")).unwrap(); tokio::time::sleep(Duration::from_millis(400)).await;
+                std::fs::write(d.join("nested/inner.txt"), "3").unwrap();
+                if !wait_for("inner.txt").await { missing.push("the creation of a file in a new nested directory".into()); }
+                seen.lock().unwrap().clear();
+                std::fs::rename(d.join("created.txt"), d.join("renamed.txt")).unwrap();
+                if !wait_for("created.txt").await { missing.push("a rename (no event names the old path)".into()); }
+                seen.lock().unwrap().clear();
+                std::fs::remove_file(d.join("nested/inner.txt")).unwrap();
+                if !wait_for("inner.txt").await { missing.push("the removal of a file".into()); }
+                main.abort();
+                if empty_batches.load(Ordering::SeqCst) > 0 { return Err(format!("[{label}] the action handler was invoked with an empty batch")); }
+                if !missing.is_empty() { let _ = std::fs::remove_dir_all(&dir); return Err(format!("[{label} watcher] never reached the action handler within 10 s: {}", missing.join("; "))); }
+            }
+            let _ = std::fs::remove_dir_all(&dir);
+            Ok(())
+        }
         _ => Err(format!("unknown scenario {name}")),
     }
 }
